@@ -394,11 +394,12 @@ theorem decMsgF_inv (f : Nat) (b : Bytes) (m : Msg6) (h : decMsgF (f + 1) b = .o
       right
       by_cases hr : r.length < 33
       · rw [decMsgF_relay_short f t r ht hr] at h; simp at h
-      · match r, hr with
-        | hops :: r1, hr1 =>
-          simp only [List.length_cons] at hr1
+      · cases r with
+        | nil => simp only [List.length_nil] at hr; omega
+        | cons hops r1 =>
+          simp only [List.length_cons] at hr
           obtain ⟨link, r2, rfl, hl⟩ := split_at r1 16 (by omega)
-          simp only [List.length_append, hl] at hr1
+          simp only [List.length_append, hl] at hr
           obtain ⟨peer, rest, rfl, hp⟩ := split_at r2 16 (by omega)
           rw [decMsgF_relay f t hops link peer rest ht hl hp] at h
           obtain ⟨os, hos, rfl⟩ := Res.map_eq_ok h
@@ -920,5 +921,187 @@ theorem dec6_ne_panic (b : Bytes) : dec6 b ≠ .panic := (dec_ne_panic _).2.2 b
 theorem parseOption_ne_panic (code : Nat) (data : Bytes) : parseOption code data ≠ .panic :=
   (dec_ne_panic _).1 code data
 theorem decOpts_ne_panic (data : Bytes) : decOpts data ≠ .panic := (dec_ne_panic _).2.1 data
+
+/-! ### corollaries of the grammar characterisation -/
+
+/-- the grammar is functional: a value has at most one reading -/
+theorem POpt_functional {c : Nat} {v : Bytes} {o o' : Opt6} (h : POpt c v o) (h' : POpt c v o') :
+    o = o' := by
+  have e := (parseOption_iff c v o).mpr h
+  rw [(parseOption_iff c v o').mpr h'] at e
+  simpa using e.symm
+
+theorem POpts_functional {d : Bytes} {os os' : List Opt6} (h : POpts d os) (h' : POpts d os') :
+    os = os' := by
+  have e := (decOpts_iff d os).mpr h
+  rw [(decOpts_iff d os').mpr h'] at e
+  simpa using e.symm
+
+theorem PMsg_functional {b : Bytes} {m m' : Msg6} (h : PMsg b m) (h' : PMsg b m') : m = m' := by
+  have e := (dec6_iff b m).mpr h
+  rw [(dec6_iff b m').mpr h'] at e
+  simpa using e.symm
+
+/-- the reading of an option carries the code it was framed with -/
+theorem POpt_code {c : Nat} {v : Bytes} {o : Opt6} (h : POpt c v o) : o.code = c := by
+  cases h with
+  | leaf _ hd => exact (decSimple_shape _ _ _ hd).2.1
+  | _ => rfl
+
+theorem not_mem_knownCodes {c : Nat} (h1 : c ∉ containerCodes) (h2 : c ∉ simpleCodes) :
+    c ∉ knownCodes := by
+  simp only [knownCodes, containerCodes, simpleCodes, List.mem_cons, List.mem_nil_iff, or_false,
+    not_or] at h1 h2 ⊢
+  simp only [h1, h2, not_false_eq_true, and_self]
+
+theorem containerCodes_known {c : Nat} (h : c ∈ containerCodes) : c ∈ knownCodes := by
+  simp only [containerCodes, List.mem_cons, List.mem_nil_iff, or_false] at h
+  rcases h with rfl | rfl | rfl | rfl | rfl | rfl | rfl | rfl | rfl <;> decide
+
+/-- an option is read as `generic` only for codes outside `knownCodes`, and then verbatim -/
+theorem generic_verbatim {c c' : Nat} {v d : Bytes} (h : POpt c v (.generic c' d)) :
+    c' = c ∧ d = v ∧ c ∉ knownCodes := by
+  cases h with
+  | leaf hc hd =>
+    obtain ⟨_, hcode, hg⟩ := decSimple_shape _ _ _ hd
+    obtain ⟨hdv, hs⟩ := hg c' d rfl
+    refine ⟨hcode, hdv, ?_⟩
+    exact not_mem_knownCodes hc hs
+
+/-- every value of an unknown code is accepted, as `generic` -/
+theorem generic_accepted {c : Nat} (v : Bytes) (h : c ∉ knownCodes) : POpt c v (.generic c v) :=
+  .leaf (fun hc => h (containerCodes_known hc)) (decSimple_generic c v h)
+
+theorem generic_iff (c : Nat) (v : Bytes) : c ∉ knownCodes ↔ POpt c v (.generic c v) :=
+  ⟨generic_accepted v, fun h => (generic_verbatim h).2.2⟩
+
+/-! #### framing: wire order, concatenation, independence of neighbours -/
+
+theorem wireCodesN_nil (n : Nat) : wireCodesN n [] = [] := by
+  cases n <;> rfl
+
+theorem wireCodesN_tlv (n code : Nat) (v rest : Bytes) (hc : code < 65536) (hv : v.length < 65536) :
+    wireCodesN (n + 1) (tlv code v ++ rest) = code :: wireCodesN n rest := by
+  have e : tlv code v ++ rest =
+      UInt8.ofNat (code / 256) :: UInt8.ofNat code :: UInt8.ofNat (v.length / 256) ::
+        UInt8.ofNat v.length :: (v ++ rest) := by
+    simp [tlv, be16]
+  have h1 : beNat [UInt8.ofNat (code / 256), UInt8.ofNat code] = code := beNat_be16 hc
+  have h2 : beNat [UInt8.ofNat (v.length / 256), UInt8.ofNat v.length] = v.length := beNat_be16 hv
+  rw [e]
+  simp only [wireCodesN, h1, h2, List.drop_left']
+
+theorem Tiles_codes {α : Type} {P : Nat → Bytes → α → Prop} (code : α → Nat)
+    (hP : ∀ c v o, P c v o → code o = c) {d : Bytes} {os : List α} (h : Tiles P d os) :
+    ∀ n, d.length ≤ n → wireCodesN n d = os.map code := by
+  induction h with
+  | nil => intro n _; simp [wireCodesN_nil]
+  | @cons c v rest o os hc hv hp _ ih =>
+    intro n hn
+    cases n with
+    | zero => simp [tlv_length] at hn
+    | succ n =>
+      rw [wireCodesN_tlv n c v rest hc hv, ih n (by simp [tlv_length] at hn; omega)]
+      simp [hP _ _ _ hp]
+
+/-- options appear in the decoded list in wire order, each under its wire code -/
+theorem POpts_codes {d : Bytes} {os : List Opt6} (h : POpts d os) : os.map Opt6.code = wireCodes d :=
+  (Tiles_codes Opt6.code (fun _ _ _ hp => POpt_code hp) (Tiles_of_POpts h) _ (Nat.le_refl _)).symm
+
+theorem Tiles_append {α : Type} {P : Nat → Bytes → α → Prop} {d1 d2 : Bytes} {os1 os2 : List α}
+    (h1 : Tiles P d1 os1) (h2 : Tiles P d2 os2) : Tiles P (d1 ++ d2) (os1 ++ os2) := by
+  induction h1 with
+  | nil => exact h2
+  | cons hc hv hp _ ih =>
+    rw [List.append_assoc]
+    exact .cons hc hv hp ih
+
+/-- two option lists concatenate -/
+theorem POpts_append {d1 d2 : Bytes} {os1 os2 : List Opt6} (h1 : POpts d1 os1) (h2 : POpts d2 os2) :
+    POpts (d1 ++ d2) (os1 ++ os2) :=
+  POpts_of_Tiles (Tiles_append (Tiles_of_POpts h1) (Tiles_of_POpts h2))
+
+/-- the framing of one option determines code, value and remainder -/
+theorem tlv_inj {c c' : Nat} {v v' r r' : Bytes} (hc : c < 65536) (hc' : c' < 65536)
+    (hv : v.length < 65536) (hv' : v'.length < 65536) (h : tlv c v ++ r = tlv c' v' ++ r') :
+    c = c' ∧ v = v' ∧ r = r' := by
+  unfold tlv at h
+  simp only [List.append_assoc] at h
+  obtain ⟨e1, h⟩ := List.append_inj h (by simp)
+  obtain ⟨e2, h⟩ := List.append_inj h (by simp)
+  have ec : c = c' := by rw [← beNat_be16 hc, ← beNat_be16 hc', e1]
+  have el : v.length = v'.length := by rw [← beNat_be16 hv, ← beNat_be16 hv', e2]
+  obtain ⟨e3, e4⟩ := List.append_inj h el
+  exact ⟨ec, e3, e4⟩
+
+theorem Tiles_inv {α : Type} {P : Nat → Bytes → α → Prop} {d : Bytes} {os : List α}
+    (h : Tiles P d os) :
+    (d = [] ∧ os = []) ∨ ∃ c v rest o os', d = tlv c v ++ rest ∧ os = o :: os' ∧ c < 65536 ∧
+      v.length < 65536 ∧ P c v o ∧ Tiles P rest os' := by
+  cases h with
+  | nil => exact Or.inl ⟨rfl, rfl⟩
+  | cons hc hv hp ht => exact Or.inr ⟨_, _, _, _, _, rfl, rfl, hc, hv, hp, ht⟩
+
+theorem tlv_append_ne_nil (c : Nat) (v r : Bytes) : tlv c v ++ r ≠ [] := by
+  intro h
+  have := congrArg List.length h
+  simp [tlv_length] at this
+
+/-- acceptance of one option does not depend on its neighbours -/
+theorem Tiles_cons_iff {α : Type} {P : Nat → Bytes → α → Prop} {c : Nat} {v rest : Bytes} {o : α}
+    {os : List α} (hc : c < 65536) (hv : v.length < 65536) :
+    Tiles P (tlv c v ++ rest) (o :: os) ↔ P c v o ∧ Tiles P rest os := by
+  constructor
+  · intro h
+    rcases Tiles_inv h with ⟨h0, _⟩ | ⟨c', v', rest', o', os', hd, hos, hc', hv', hp, ht⟩
+    · exact absurd h0 (tlv_append_ne_nil _ _ _)
+    · obtain ⟨rfl, rfl, rfl⟩ := tlv_inj hc hc' hv hv' hd
+      simp only [List.cons.injEq] at hos
+      obtain ⟨rfl, rfl⟩ := hos
+      exact ⟨hp, ht⟩
+  · intro h; exact .cons hc hv h.1 h.2
+
+theorem POpts_cons_iff {c : Nat} {v rest : Bytes} {o : Opt6} {os : List Opt6} (hc : c < 65536)
+    (hv : v.length < 65536) :
+    POpts (tlv c v ++ rest) (o :: os) ↔ POpt c v o ∧ POpts rest os := by
+  rw [POpts_iff_Tiles, POpts_iff_Tiles, Tiles_cons_iff hc hv]
+
+/-- a tiling splits at every TLV boundary: if a prefix `d1` is itself a tiling,
+the whole is a tiling iff the remainder is, and the values are concatenated -/
+theorem Tiles_split {α : Type} {P : Nat → Bytes → α → Prop}
+    (hfun : ∀ c v o o', P c v o → P c v o' → o = o') {d1 d2 : Bytes} {os1 os : List α}
+    (h1 : Tiles P d1 os1) : Tiles P (d1 ++ d2) os → ∃ os2, os = os1 ++ os2 ∧ Tiles P d2 os2 := by
+  induction h1 generalizing os with
+  | nil => intro h; exact ⟨os, rfl, h⟩
+  | @cons c v rest o os1 hc hv hp _ ih =>
+    intro h
+    rw [List.append_assoc] at h
+    rcases Tiles_inv h with ⟨h0, _⟩ | ⟨c', v', rest', o', os', hd, hos, hc', hv', hp', ht⟩
+    · exact absurd h0 (tlv_append_ne_nil _ _ _)
+    · obtain ⟨rfl, rfl, rfl⟩ := tlv_inj hc hc' hv hv' hd
+      obtain ⟨os2, rfl, h2⟩ := ih ht
+      exact ⟨os2, by rw [hos, hfun _ _ _ _ hp hp']; rfl, h2⟩
+
+theorem POpts_split {d1 d2 : Bytes} {os1 os : List Opt6} (h1 : POpts d1 os1)
+    (h : POpts (d1 ++ d2) os) : ∃ os2, os = os1 ++ os2 ∧ POpts d2 os2 := by
+  obtain ⟨os2, e, h2⟩ := Tiles_split (P := POpt) (fun _ _ _ _ hp hp' => POpt_functional hp hp') (Tiles_of_POpts h1)
+    (Tiles_of_POpts h)
+  exact ⟨os2, e, POpts_of_Tiles h2⟩
+
+/-- `Options.FromBytes` of a concatenation at a TLV boundary -/
+theorem POpts_append_iff {d1 d2 : Bytes} {os1 : List Opt6} (h1 : POpts d1 os1) (os : List Opt6) :
+    POpts (d1 ++ d2) os ↔ ∃ os2, os = os1 ++ os2 ∧ POpts d2 os2 :=
+  ⟨POpts_split h1, fun ⟨_, e, h2⟩ => e ▸ POpts_append h1 h2⟩
+
+/-! #### the grammar is inhabited (non-vacuity) -/
+
+/-- a SOLICIT header followed by an IA_NA (code 3, 12-byte value, no sub-options) -/
+example : PMsg ([1, 0xaa, 0xbb, 0xcc] ++ tlv 3 ([0, 0, 0, 1] ++ (be32 3600 ++ (be32 5400 ++ []))))
+    (.msg 1 [0xaa, 0xbb, 0xcc] [.iana [0, 0, 0, 1] (3600 * second) (5400 * second) []]) :=
+  .msg (t := 1) (xid := [0xaa, 0xbb, 0xcc]) rfl rfl
+    (POpts_append (d2 := []) (os2 := [])
+      (.cons (rest := []) (by decide) (by decide)
+        (.iana (iaid := [0, 0, 0, 1]) (s1 := 3600) (s2 := 5400) rfl (by decide) (by decide) .nil) .nil)
+      .nil)
 
 end Dhcp.V6
